@@ -40,10 +40,12 @@ def clusters_plan_st(draw, tier):
     else:   # randomised policies, reproduced through the per-row seed (LinTS excluded: finding D8 of C05)
         lp = draw(gen.lp_st(["EpsilonGreedy", "Softmax", "ThompsonSampling", "Random", "LinGreedy"], arms))
     cfg = {"arms": arms, "lp": lp,
-           "np": ["Clusters", {"n_clusters": draw(st.integers(2, 4)), "is_minibatch": draw(st.booleans())}],
+           "np": ["Clusters", {"n_clusters": draw(st.integers(2, 4)),
+                               "is_minibatch": draw(st.sampled_from([True, True, False]))}],
            "seed": draw(st.integers(0, 2 ** 20)), "n_jobs": 1, "backend": None, "arm_kind": kind}
-    h = gen.History(draw, cfg, grid=draw(st.sampled_from(["int", "half"])), d=draw(st.integers(1, 3)), max_rows=10,
-                    exact_only=True)
+    # (small histories: mini-batch k-means then leaves clusters without any row, with a centre of their own)
+    h = gen.History(draw, cfg, grid=draw(st.sampled_from(["int", "half"])), d=draw(st.integers(1, 3)),
+                    max_rows=draw(st.sampled_from([10, 10, 5])), exact_only=True)
     h.fit()
     for _ in range(draw(st.integers(0, 5))):
         gen.step_any(h, ["partial_fit", "partial_fit", "fit", "add_arm", "remove_arm", "predict",
@@ -97,7 +99,13 @@ def evaluate_clusters(plan, ctx):
     tol = 1e-9 if linear else 0.0
     nt = False
     skipped = False
-    for q in plan["queries"]:
+    # besides the generated queries: the centre of every cluster without a stored row (a query that lands in an empty
+    # cell is otherwise rare)
+    counts = [labels.count(c) for c in range(len(km.cluster_centers_))]
+    centre_queries = [[float(v) for v in km.cluster_centers_[c]] for c, n_ in enumerate(counts) if n_ == 0]
+    if centre_queries:
+        ev.append("query_at_centre_of_empty_cluster")
+    for q in list(plan["queries"]) + centre_queries:
         c = int(km.predict(np.asarray([q], dtype=float))[0])
         cell = [i for i, l in enumerate(labels) if l == c]
         row_seed = int(streams.clone_rng(mab._rng).randint(np.iinfo(np.int32).max, size=1)[0])
@@ -111,6 +119,26 @@ def evaluate_clusters(plan, ctx):
             # a k-means cluster without any stored observation (fewer distinct contexts than clusters, or mini-batch
             # k-means on a small history): the learning policy trained on nothing holds the neutral value
             ev.append("empty_cell")
+            want0 = None
+            try:
+                # the policy of that cluster was trained on zero rows: a fresh bandit fit on zero rows
+                f0 = MAB(list(arms), ops.make_lp(cfg["lp"]), None, row_seed)
+                if linear:
+                    f0.fit(np.array(dec[:0]), np.array([], dtype=float), np.zeros((0, len(q))))
+                    want0 = ops.canon_expectations(f0.predict_expectations([q]))
+                else:
+                    f0.fit(np.array(dec[:0]), np.array([], dtype=float))
+                    want0 = ops.canon_expectations(f0.predict_expectations())
+            except Exception:
+                want0 = None
+            added0 = _added_since_training(plan)
+            if want0 is not None and not added0 and cfg["lp"][0] not in ("EpsilonGreedy", "UCB1"):
+                if not ops.same(got, want0, tol, tol):
+                    raise Violation("empty_cell_value", "query %r falls into cluster %d which holds no stored "
+                                    "observation: expectations %s, a bandit fit on zero rows gives %s"
+                                    % (q, c, ops.short(got), ops.short(want0)))
+                nt = True
+                continue
             if cfg["lp"][0] in ("EpsilonGreedy", "UCB1") and deterministic:
                 if not all(v == 0 for _, v in got):
                     raise Violation("empty_cell_value", "query %r falls into cluster %d which holds no stored observation, "
@@ -315,7 +343,7 @@ def evaluate_tree(plan, ctx):
 
 
 SUBCHECKS = [
-    SubCheck("clusters", clusters_strategy, evaluate_clusters, quick=3000, thorough=30000),
+    SubCheck("clusters", clusters_strategy, evaluate_clusters, quick=6000, thorough=60000),
     SubCheck("tree", tree_strategy, evaluate_tree, quick=4000, thorough=40000),
 ]
 KNOWN = {}
